@@ -12,6 +12,9 @@ Every (sink, string) case runs on its own fresh Presentation() and is judged fou
   3. every XML member of the saved package parses with the plain parser;
   4. DIFFERENTIAL SKELETON: tag tree + attribute names (+ comment / PI nodes) of every saved XML member
      equal those produced by the same call with the control string "Abc" (the injection detector).
+One violation per case: the most telling failed observation (raises > malformed > structure-changed > readback >
+reopen); what follows from it is counted. Keys are "<observation>:<sink class>[:<exception type | kind of difference>]";
+a sink class groups the entry points that reach one template / setter in the code under test.
 Plus one fixed unit: built-in auto-shape base names that contain markup ('"No" Symbol') through add_shape.
 """
 from __future__ import annotations
@@ -38,7 +41,8 @@ RULE = (
 ASSUMPTIONS = [
     "readers: public API plus harness XPath on zipfile + plain lxml (resolve_entities=False); the skeleton oracle uses only the plain parser",
     "the control string 'Abc' is handled correctly by every sink (a control run that fails makes the run inconclusive)",
-    "file-name sinks: the stored string is the base name <string>.png / <string>.mp4 of a real file created in a scratch directory",
+    "file-name sinks: the stored string is the base name <string>.png / <string>.mp4 of a real file created in a scratch directory; poster-frame and "
+    "OLE-icon file names and data-point number formats are stored nowhere in the XML: those sinks are judged on exceptions and structure only",
     "documented translations are not violations: text sinks split at LF (paragraphs) and VT (a:br) - such strings skip the skeleton comparison; "
     "C0 controls other than TAB/LF/CR (escaped as _xHHHH_ by text sinks) are left to C13; the empty string skips the skeleton comparison "
     "(assigning '' documents removal for slide names) and is not given to hyperlink addresses ('' removes the link)",
@@ -84,7 +88,7 @@ def gen_string(sink_name, j):
         return MUST[j]
     rnd = env.rng("C05", sink_name, j)
     parts = []
-    for _ in range(rnd.choice([1, 1, 2, 2, 3, 3, 4, 6])):
+    for _ in range(rnd.choice([1, 2, 2, 3, 3, 4, 5, 6])):
         parts.append(rnd.choice(ATOMS) if rnd.random() < 0.72 else rnd.choice(WORDS))
     s = "".join(parts)
     if rnd.random() < 0.1:
@@ -435,7 +439,8 @@ def _register():
     tick = lambda prs, h: chart_of(prs, h).category_axis.tick_labels.number_format  # noqa: E731
     # numeric categories: only c:cat//c:formatCode (the category axis keeps "General"); date categories: also c:dateAx/c:numFmt/@formatCode
     sink("number-format:numeric-categories", "categories-number-format", _chart(_num_cats(False)), None, CHART, "//c:ser[1]/c:cat//c:formatCode/text()")
-    sink("number-format:date-categories", "date-axis-number-format", _chart(_num_cats(True), "LINE"), tick, CHART, "//c:dateAx/c:numFmt/@formatCode")
+    for ct in ("LINE", "AREA", "BAR_CLUSTERED"):  # the three chart writers that emit c:dateAx, one template each
+        sink("number-format:date-categories:" + ct.lower(), "date-axis-number-format", _chart(_num_cats(True), ct), tick, CHART, "//c:dateAx/c:numFmt/@formatCode")
     sink("number-format:tick-labels", "axis-number-format", _chart(lambda s: cat_data(), after=_set(lambda ch: ch.value_axis.tick_labels, "number_format")),
          lambda prs, h: chart_of(prs, h).value_axis.tick_labels.number_format, CHART, "//c:valAx/c:numFmt/@formatCode")
     sink("number-format:data-labels", "data-labels-number-format", _chart(lambda s: cat_data(), after=_set(_dlbls, "number_format")),
